@@ -36,13 +36,14 @@ theorem Inv.step_lk0_first {c : Cfg} {o : Orders} {s : State} {m : Mem Loc} {t i
   have hcap := inv.holder_cap hown hnc hcapT
   have hhist : m.hist = s.mem.hist := Mem.read_hist hr
   apply inv.slot_step (s' := { s with mem := m, lt := upd s.lt i (s.lt i + Gen.Epoch.lockDepthStep), pc := upd s.pc t (.lk1 i) })
-    (t := t) (i0 := i) hown q.ext q.wf q.tv (fun l _ => by simp [hhist]) <;> try rfl
+    (t := t) (i0 := i) hown q.ext q.wf q.tv (fun l _ _ => by simp [hhist])
+    (tblMono_of_hist (by simp [hhist]) inv.tblMono) <;> try rfl
   · intro j e; simp [e]
   · intro j _; rfl
   · intro j _; rfl
   · intro j _; rfl
   · intro t' e; simp [e]
-  · intro j; simp [hp, Pc.crAt]
+  · intro j _; simp [hp, Pc.crAt]
   · intro j e; simp [hp, Pc.lkAt]; exact fun h => e h.symm
   · intro j e; simp [hp, Pc.lk3At]
   · exact ⟨View.le_refl _, View.le_trans (inv.acc i t hown).1 (q.ext.cur t)⟩
@@ -85,13 +86,14 @@ theorem Inv.step_lk0_nested {c : Cfg} {o : Orders} {s : State} {m : Mem Loc} {t 
   have hhist : m.hist = s.mem.hist := Mem.read_hist hr
   have hav : s.av i ≤ (m.tv t).cur := View.le_trans (inv.acc i t hown).1 (q.ext.cur t)
   apply inv.slot_step (s' := { s with mem := m, lt := upd s.lt i (s.lt i + Gen.Epoch.lockDepthStep), pc := upd s.pc t .idle, av := upd s.av i (m.tv t).cur })
-    (t := t) (i0 := i) hown q.ext q.wf q.tv (fun l _ => by simp [hhist]) <;> try rfl
+    (t := t) (i0 := i) hown q.ext q.wf q.tv (fun l _ _ => by simp [hhist])
+    (tblMono_of_hist (by simp [hhist]) inv.tblMono) <;> try rfl
   · intro j e; simp [e]
   · intro j _; rfl
   · intro j _; rfl
   · intro j e; simp [e]
   · intro t' e; simp [e]
-  · intro j; simp [hp, Pc.crAt]
+  · intro j _; simp [hp, Pc.crAt]
   · intro j e; simp [hp, Pc.lkAt]
   · intro j e; simp [hp, Pc.lk3At]
   · simp only [upd_same, State.cur]; exact ⟨hav, View.le_refl _⟩
@@ -116,13 +118,14 @@ theorem Inv.step_lk2 {c : Cfg} {o : Orders} {s : State} {t i v : Nat} (inv : Inv
   have hnc : ¬ creating s i t := by simp [creating, hp, Pc.crAt]
   apply inv.slot_step (s' := { s with mem := s.mem.write t (.slot i) o.lockStore v, pc := upd s.pc t (.lk3 i v) })
     (t := t) (i0 := i) hown hext hwf (fun t' e => Mem.write_tv_other _ _ _ _ _ _ e)
-    (fun l hl => Mem.write_hist_other _ _ _ _ _ _ hl) <;> try rfl
+    (fun l hl _ => Mem.write_hist_other _ _ _ _ _ _ hl)
+    (tblMono_of_hist (Mem.write_hist_other _ _ _ _ _ _ (by simp)) inv.tblMono) <;> try rfl
   · intro j _; rfl
   · intro j _; rfl
   · intro j _; rfl
   · intro j _; rfl
   · intro t' e; simp [e]
-  · intro j; simp [hp, Pc.crAt]
+  · intro j _; simp [hp, Pc.crAt]
   · intro j e; simp [hp, Pc.lkAt]
   · intro j e; simp [hp, Pc.lk3At]; exact fun h => e h.symm
   · exact ⟨View.le_refl _, View.le_trans (inv.acc i t hown).1 (hext.cur t)⟩
@@ -169,13 +172,14 @@ theorem Inv.step_ul0_nested {c : Cfg} {o : Orders} {s : State} {m : Mem Loc} {t 
   have hhist : m.hist = s.mem.hist := Mem.read_hist hr
   have hav : s.av i ≤ (m.tv t).cur := View.le_trans (inv.acc i t hown).1 (q.ext.cur t)
   apply inv.slot_step (s' := { s with mem := m, lt := upd s.lt i (s.lt i - Gen.Epoch.unlockDepthStep), pc := upd s.pc t .idle, av := upd s.av i (m.tv t).cur })
-    (t := t) (i0 := i) hown q.ext q.wf q.tv (fun l _ => by simp [hhist]) <;> try rfl
+    (t := t) (i0 := i) hown q.ext q.wf q.tv (fun l _ _ => by simp [hhist])
+    (tblMono_of_hist (by simp [hhist]) inv.tblMono) <;> try rfl
   · intro j e; simp [e]
   · intro j _; rfl
   · intro j _; rfl
   · intro j e; simp [e]
   · intro t' e; simp [e]
-  · intro j; simp [hp, Pc.crAt]
+  · intro j _; simp [hp, Pc.crAt]
   · intro j e; simp [hp, Pc.lkAt]
   · intro j e; simp [hp, Pc.lk3At]
   · simp only [upd_same, State.cur]; exact ⟨hav, View.le_refl _⟩
@@ -207,13 +211,14 @@ theorem Inv.step_ul1 {c : Cfg} {o : Orders} {s : State} {t i : Nat} (inv : Inv c
     View.le_trans (inv.acc i t hown).1 (hext.cur t)
   apply inv.slot_step (s' := { s with mem := s.mem.write t (.slot i) o.unlockStore MAX, lt := upd s.lt i (s.lt i - Gen.Epoch.unlockDepthStep), pc := upd s.pc t .idle, fv := upd s.fv i none, av := upd s.av i ((s.mem.write t (.slot i) o.unlockStore MAX).tv t).cur })
     (t := t) (i0 := i) hown hext hwf (fun t' e => Mem.write_tv_other _ _ _ _ _ _ e)
-    (fun l hl => Mem.write_hist_other _ _ _ _ _ _ hl) <;> try rfl
+    (fun l hl _ => Mem.write_hist_other _ _ _ _ _ _ hl)
+    (tblMono_of_hist (Mem.write_hist_other _ _ _ _ _ _ (by simp)) inv.tblMono) <;> try rfl
   · intro j e; simp [e]
   · intro j e; simp [e]
   · intro j _; rfl
   · intro j e; simp [e]
   · intro t' e; simp [e]
-  · intro j; simp [hp, Pc.crAt]
+  · intro j _; simp [hp, Pc.crAt]
   · intro j e; simp [hp, Pc.lkAt]
   · intro j e; simp [hp, Pc.lk3At]
   · simp only [upd_same, State.cur]; exact ⟨hav, View.le_refl _⟩
